@@ -204,3 +204,45 @@ class TArrN(TSpec):
     def src(self, name, model):
         n = max(int(_mget(model, self.count_name, 3)), 0)
         return f"(_generic_array(({n}, {self.k}), 'real') * 0.37 - 1.0)"
+
+
+class TAlignResults(TSpec):
+    """list of N AlignmentResult records (N = the symbolic count `count_name`): label, shift(3), quat(4, unit), score
+    are uninterpreted functions of the row"""
+
+    def __init__(self, count_name):
+        self.count_name = count_name
+
+    def fresh(self, name, path):
+        from pyvc.loops import SList
+        interp = path.interp
+        cls = interp.resolve("acryo.alignment._base:AlignmentResult")
+        n = Sym(z3.Int(self.count_name))
+        lab = z3.Function(f"{name}_label", z3.IntSort(), z3.IntSort())
+        sh = z3.Function(f"{name}_shift", z3.IntSort(), z3.IntSort(), z3.RealSort())
+        qt = z3.Function(f"{name}_quat", z3.IntSort(), z3.IntSort(), z3.RealSort())
+        sc = z3.Function(f"{name}_score", z3.IntSort(), z3.RealSort())
+        qi = z3.Int(f"{name}_row")
+        # type invariant: the quaternions are unit quaternions
+        path.conds.append(z3.ForAll([qi], sum(qt(qi, c) * qt(qi, c) for c in range(4)) == 1))
+
+        def elem(i):
+            it = V.lift(i)
+            o = X.Obj(cls, {"label": Sym(lab(it)),
+                            "shift": SArr((3,), lambda idx, it=it: Sym(sh(it, V.lift(idx[0]))), "real"),
+                            "quat": SArr((4,), lambda idx, it=it: Sym(qt(it, V.lift(idx[0]))), "real"),
+                            "score": Sym(sc(it))})
+            o.attrs["_fields"] = ("label", "shift", "quat", "score")
+            return o
+        return SList(n, elem)
+
+    def src(self, name, model):
+        n = max(int(_mget(model, self.count_name, 3)), 0)
+        return (f"[_AlignmentResult(i % 3, np.array([0.3 * i - 0.5, 0.2, -0.1 * i], dtype=np.float32), "
+                f"_Rotation.from_rotvec([0.1 * i, -0.2, 0.05 * i]).as_quat().astype(np.float32), 0.5 + 0.01 * i) "
+                f"for i in range({n})]")
+
+
+NATIVE_IMPORTS += """
+from acryo.alignment._base import AlignmentResult as _AlignmentResult
+"""
